@@ -18,6 +18,24 @@ def run(ctx: Ctx, focus: str) -> None:
     docs = []
     for name, h in modules():
         docs.append((f"catalogue:{name}", json.loads(h.to_json())))
+    # directed history: a stray link to a port beyond an operation's arity, removed again, then state-order edges on that node
+    try:
+        from hugr import tys
+        from hugr.build.dfg import Dfg
+        from hugr.std.logic import Not
+        d = Dfg(tys.Bool)
+        a = d.add_op(Not, d.inputs()[0])
+        b = d.add_op(Not, a)
+        c = d.add_op(Not, b)
+        d.hugr.add_link(a.out(3), c.inp(4))
+        d.hugr.delete_link(a.out(3), c.inp(4))
+        d.add_state_order(a, c)
+        d.add_state_order(a, b)
+        d.set_outputs(c)
+        docs.append(("directed:stray-link-removed-then-order-edges", json.loads(d.hugr.to_json())))
+    except Exception as e:  # noqa: BLE001
+        ctx.violation({"source": "directed", "check": f"exception {type(e).__name__}"}, {"program": "stray link removed, then order edges"}, "accepted", repr(e)[:300],
+                      clause="HugrStore", leg="C2S")
     feats = set()
     for k in range(80 if quick else 800):
         seed = ctx.seed * 7001 + k
